@@ -16,9 +16,22 @@ from the int, datetimes from the generated fields (texts are assembled by hand f
 documented formats), timedeltas with ``fractions.Fraction`` from (number, unit) groups, ranges from
 (lo, hi) inclusive.
 
-EITHER classes (labelled, only "no wrong value" asserted): bool texts outside true/false/1/0/t/f;
-non-canonical int spellings (``+5``, ``007``, `` 7``): value or error, never another value; the date of
-a time-only datetime text; the partial list left in a ``multiple`` option after a failed parse.
+Must-accept textual forms are only what is documented or a value's own ``str()``/``repr()``: ``str(int)``;
+``repr(float)`` (incl. ``inf``/``-inf``/``nan``); ``true/false/1/0/t/f`` in any case and the bare ``--flag``; the ten
+datetime formats; ``<n><unit>`` timedelta groups (n = ``-?digits[.digits]``) joined by single blanks, or plain seconds;
+comma lists and ``lo:hi`` ranges.
+
+EITHER classes (labelled; an ``options.Error``/exception is fine, a *different* value is not): every other bool
+spelling (``no``, ``off``, ``yes``, ``on``, ``y``, ``n``, ``maybe``, ``2``, the empty string): Error or any bool;
+non-canonical int spellings (``+5``, ``007``, `` 7``); float spellings other than ``repr`` (``%e``, ``%.3f``, ``5``,
+``+1.5``, ``.5``, ``1E5``, ``Infinity``, `` 1.5 ``, ``1_0.5``); timedelta numbers like ``.5``/``2.``/``1e2``/``+3``,
+a blank between number and unit, double blanks; descending ranges; the date of a time-only datetime text; the
+partial list left in a ``multiple`` option after a failed parse.
+
+Corrections: (1) a *stricter* ``_parse_bool`` (``no``/``off``/typos raise options.Error instead of silently meaning
+True) made the check report ``C44.valid_input_rejected`` -- an oracle over-reach: undocumented bool spellings were
+"any bool" but not "or Error".  Fixed, and the same review moved the implementation-derived float and timedelta
+spellings listed above from must-accept to value-or-Error.
 
 Sensitivity (quick tier, seed 1, scratch copies; all caught = exit 1):
   * range ``hi + 1`` -> ``hi`` .......................................... caught (C44.value)
@@ -127,6 +140,10 @@ def dt_text(fields, fmt):
     return "%02d:%02d" % (h, m), Either("time_only", datetime.time(h, m))
 
 
+import re as _re
+_TD_STRICT_NUM = _re.compile(r"^-?[0-9]+(\.[0-9]+)?$")
+
+
 def td_text(groups, sep):
     """groups: list of (numtext, space, unit)."""
     total = Fraction(0)
@@ -160,7 +177,8 @@ def realise_scalar(tname, spec, labels):
             v = float(f)
             if v != v or v in (float("inf"), float("-inf")):
                 labels.add("float_non_finite")
-            if f in FLOAT_EITHER_LITERALS:
+            if f != repr(v):
+                # not the value's own repr(): float() accepts it, a stricter parser need not
                 labels.add("float_lenient_spelling_EITHER")
                 return f, Either("value_or_error", v)
             return f, v
@@ -177,7 +195,11 @@ def realise_scalar(tname, spec, labels):
         else:
             text = str(int(f)) if abs(f) < 1e15 else repr(f)
             labels.add("alt_float_form")
-        return text, float(text)
+        v = float(text)
+        if text != repr(v):
+            labels.add("float_lenient_spelling_EITHER")
+            return text, Either("value_or_error", v)
+        return text, v
     if tname == "bool":
         text = spec
         if text.lower() in BOOL_DOC:
@@ -199,6 +221,11 @@ def realise_scalar(tname, spec, labels):
         if len(groups) > 1:
             labels.add("td_multi_group")
         labels.add("alt_timedelta_form")
+        strict = sep == " " and all(space == "" and _TD_STRICT_NUM.match(num) for num, space, _ in groups)
+        if not strict:
+            # ".5", "2.", "1e2", "+3", a blank between number and unit, double blanks: the implementation's regex
+            # takes them, nothing documents them -> the value or an error, never another value
+            labels.add("td_lenient_form_EITHER")
         return td_text(groups, sep)
     raise AssertionError(tname)
 
@@ -418,13 +445,13 @@ def run_case(ctx, case):
                         labels.add("remaining_args")
                     args.extend(rem)
                 # options that may legitimately fail (non-canonical int spellings)
-                may_fail = any(_has_kind(e, "value_or_error") or "int_range_descending_EITHER" in sl for _, e, sl in pending)
+                may_fail = any(_has_kind(e, "value_or_error") or _has_kind(e, "any_bool") or (sl & MAY_FAIL_LABELS) for _, e, sl in pending)
                 try:
                     with contextlib.redirect_stderr(io.StringIO()):
                         got_rem = parser.parse_command_line(list(args), final=(sidx % 2 == 0))
                 except Exception as e:
                     if may_fail:
-                        labels.add("alt_int_form_rejected")
+                        labels.add("either_form_rejected")
                         ctx.note(case, labels, False)
                         return
                     ctx.fail("C44.valid_input_rejected", {"args": args, "exc": repr(e), "defs": defs})
@@ -480,12 +507,12 @@ def run_case(ctx, case):
                 path = os.path.join(tmpdir, "conf%d.py" % sidx)
                 with open(path, "w", encoding="utf-8") as f:
                     f.write("\n".join(lines) + "\n")
-                may_fail = any(_has_kind(e, "value_or_error") or "int_range_descending_EITHER" in sl for _, e, sl in pending)
+                may_fail = any(_has_kind(e, "value_or_error") or _has_kind(e, "any_bool") or (sl & MAY_FAIL_LABELS) for _, e, sl in pending)
                 try:
                     parser.parse_config_file(path, final=(sidx % 2 == 0))
                 except Exception as e:
                     if may_fail:
-                        labels.add("alt_int_form_rejected")
+                        labels.add("either_form_rejected")
                         ctx.note(case, labels, False)
                         return
                     ctx.fail("C44.valid_input_rejected", {"config": lines, "exc": repr(e), "defs": defs})
@@ -543,6 +570,9 @@ def run_case(ctx, case):
     if len(expected) < len(defs):
         labels.add("some_unset")
     ctx.note(case, labels, nontrivial=(len(set_types) >= 2 and n_alt >= 1) or negative_ran)
+
+
+MAY_FAIL_LABELS = {"int_range_descending_EITHER", "td_lenient_form_EITHER", "bool_undocumented_text_EITHER"}
 
 
 def _has_kind(e, kind):
@@ -668,7 +698,7 @@ FLOAT_LITERALS = ["inf", "-inf", "nan", "1e308", "1e+308", "5e-324", "1E5", "+1.
 # ... and spellings float() also takes but a stricter parser might not
 FLOAT_EITHER_LITERALS = ["Infinity", "+inf", "-Infinity", "NaN", "INF", " 1.5 ", "1_0.5", "+nan"]
 float_spec_s = st.one_of(
-    st.tuples(st.sampled_from(["repr", "repr", "e", "fixed", "int"]), float_s),
+    st.tuples(st.sampled_from(["repr"] * 6 + ["e", "fixed", "int"]), float_s),
     st.tuples(st.just("repr"), st.floats(allow_nan=True, allow_infinity=True)),
     st.tuples(st.just("lit"), st.sampled_from(FLOAT_LITERALS + FLOAT_LITERALS + FLOAT_EITHER_LITERALS)),
 )
@@ -702,9 +732,9 @@ td_num_s = st.one_of(
     st.sampled_from(["1.5", "0.25", "-2", ".5", "1e2", "2.", "+3", "1.5e-3", "0", "-0.001"]),
 )
 td_unit_s = st.sampled_from([u for u in UNIT_US if u])
-td_group_s = st.tuples(td_num_s, st.sampled_from(["", "", " "]), td_unit_s)
+td_group_s = st.tuples(td_num_s, st.sampled_from(["", "", "", "", " "]), td_unit_s)
 td_spec_s = st.one_of(
-    st.tuples(st.lists(td_group_s, min_size=1, max_size=4), st.sampled_from([" ", " ", "  "])),
+    st.tuples(st.lists(td_group_s, min_size=1, max_size=4), st.sampled_from([" ", " ", " ", " ", "  "])),
     st.tuples(st.lists(st.tuples(td_num_s, st.just(""), st.just("")), min_size=1, max_size=1), st.just(" ")),  # plain seconds
 )
 # junk that the timedelta grammar cannot skip: punctuation that is not whitespace, not \w and cannot start a
